@@ -81,6 +81,7 @@ def tmpl_selection(r, lines):
     else:
         steps = [[(r.choice(['toggle', 'select']), None), (r.choice(['up', 'down']), None)] for _ in range(r.randint(1, 4))]
         steps.append([('change-query', r.choice(['a', 'b', 'o', 'foo', 'e']))])
+    steps.append([('toggle-all', None)])     # a listed item and a hidden item are selected at this point
     steps += [[(r.choice(['toggle', 'toggle-down', 'toggle-up', 'up', 'down']), None)] for _ in range(r.randint(0, 2))]
     steps.append([(r.choice(['toggle-all', 'toggle-all', 'select-all', 'deselect-all']), None)])
     steps.append([(r.choice(['clear-query', 'toggle-all', 'up']), None)])
